@@ -93,8 +93,11 @@ def codec_models():
         kind = 'write' if 'FramedWrite' in call.short else 'read'
         p.events.append(Event('framed', kind, (call.args[0], call.args[1])))
         k(p, Sym(f'framed_{kind}{p.seq("framed")}', call.retty))
+    def m_wire_io(ex, p, call, k):
+        # what is written / read through the framed streams is not this obligation's subject (C07 decides it): opaque futures
+        ex.opaque_call(p, call, k)
     B = r'length_delimited::Builder::'
-    return [(r'LengthDelimitedCodec::builder$|' + B + r'new$', m_builder),
+    return [(r'(^|::)(write_request|write_response|read_request|read_response|write_version_frame|read_version_frame)$', m_wire_io),(r'LengthDelimitedCodec::builder$|' + B + r'new$', m_builder),
             (B + r'(max_frame_length|length_field_length|length_field_type|length_field_offset|length_adjustment|num_skip|big_endian|little_endian|native_endian)(::<.*>)?$', m_set),
             (B + r'new_codec$', m_new_codec), (r'LengthDelimitedCodec::new$', m_default_codec),
             (r'<LengthDelimitedCodec as (std::clone::)?Clone>::clone$|<length_delimited::Builder as (std::clone::)?Clone>::clone$', m_clone),
